@@ -33,3 +33,31 @@ def run(ctx, layer, check_vacuity=False):
     if not summary or summary["schedules"] == 0:
         raise Broken("mwake replayed nothing")
     return r, summary
+
+
+def run_create(ctx):
+    """MpxCreate.tla: a channel is opened while the connection is being closed; every interleaving of the creator's and the
+    closer's atomic steps replayed on a real connection by mcreate."""
+    r = tlc.run_tlc(ctx.scratch("create"), "MpxCreate.tla", "MpxCreate.cfg", timeout=600, workers=4, out_name="create.out", heap="2g")
+    tlc.require_ok(r, "MpxCreate")
+    rf = tlc.run_tlc(ctx.scratch("create-flaglast"), "MpxCreate.tla", "MpxCreate_flaglast.cfg", timeout=600, workers=4, out_name="createf.out", heap="2g")
+    if "NoOrphan is violated" not in rf.out and rf.violated != "NoOrphan":
+        raise Broken("MpxCreate with the flag raised after the sweep leaves no orphan: the model is vacuous")
+    binp = ctx.go_build("mcreate")
+    p = ctx.run([binp, "-in", r.outfile], timeout=2400)
+    if p.returncode != 0:
+        raise Broken("mcreate failed: %s" % p.stderr[-2000:])
+    summary = None
+    for line in p.stdout.splitlines():
+        if not line.startswith("{"):
+            continue
+        d = json.loads(line)
+        if "summary" in d:
+            summary = d["summary"]
+        elif d["sig"] in ("harness", "harness-stuck"):
+            raise Broken("mcreate: " + d["detail"])
+        else:
+            ctx.violation("create:" + d["sig"], "%s | schedule: %s" % (d["detail"], d["sched"]), d)
+    if not summary or summary["schedules"] == 0:
+        raise Broken("mcreate replayed nothing")
+    return r, summary
